@@ -22,7 +22,10 @@
 (***************************************************************************)
 EXTENDS Integers, Sequences, FiniteSets, TLC
 
-CONSTANTS Threads, Programs, NotifyUnderLock, SpuriousWakeups
+CONSTANTS Threads, Programs, NotifyUnderLock, SpuriousWakeups,
+          Delegates,         \* ids of delegate waiters (waiter_delegate_init): queue entries woken by a function call, disjoint from Threads
+          CursorBeforeWake   \* FALSE: unwait_all takes the first entry afresh on every turn (the code); TRUE: it reads the successor
+                             \* before waking (a design the model must reject: SysSyncDelegStale.cfg)
 NONE == 0        \* thread ids are 1..n
 
 VARIABLES
@@ -34,20 +37,27 @@ VARIABLES
   woken, resumed,         \* ghost: who unlinked the waiter; the future it returned with
   cur,                    \* per waking thread: the waiter it is currently signalling
   sem, q, pushed, popped, \* safe_queue: semaphore holder, contents, ghost histories
-  touchedDead             \* ghost: some step used an event after its owner destroyed it
+  touchedDead,            \* ghost: some step used an event after its owner destroyed it
+  chain,                  \* per delegate: its callback wakes the next waiter of the queue (unwait_one from inside the callback)
+  stk,                    \* per thread: delegates whose callbacks are running on it (nested unwait_one calls)
+  nxt,                    \* per thread: cursor of unwait_all when CursorBeforeWake (-1 = take the head)
+  twice                   \* ghost: an entry was woken although it was not queued (woken twice / after it left)
 vars == <<prog, ip, pc, owner, rec, depth, saved, wq, alive, flag, mown, parked, notified, future,
-          woken, resumed, cur, sem, q, pushed, popped, touchedDead>>
+          woken, resumed, cur, sem, q, pushed, popped, touchedDead, chain, stk, nxt, twice>>
+DV == <<chain, stk, nxt, twice>>
 
 Op(t) == prog[t][ip[t]]
 Done(t) == ip[t] > Len(prog[t])
 Fn(v) == [t \in Threads |-> v]
+FnW(v) == [t \in Threads \cup Delegates |-> v]     \* per queue entry (thread waiter or delegate)
 
 Init ==
   /\ prog \in Programs /\ ip = Fn(1) /\ pc = Fn("start")
   /\ owner = NONE /\ rec = 0 /\ depth = Fn(0) /\ saved = Fn(0)
-  /\ wq = <<>> /\ alive = Fn(FALSE) /\ flag = Fn(FALSE) /\ mown = Fn(NONE) /\ parked = Fn(FALSE)
-  /\ notified = Fn(FALSE) /\ future = Fn(0) /\ woken = Fn(NONE) /\ resumed = Fn(-1) /\ cur = Fn(NONE)
+  /\ wq = <<>> /\ alive = FnW(FALSE) /\ flag = Fn(FALSE) /\ mown = Fn(NONE) /\ parked = Fn(FALSE)
+  /\ notified = Fn(FALSE) /\ future = FnW(0) /\ woken = FnW(NONE) /\ resumed = FnW(-1) /\ cur = Fn(NONE)
   /\ sem = NONE /\ q = <<>> /\ pushed = <<>> /\ popped = <<>> /\ touchedDead = FALSE
+  /\ chain = [d \in Delegates |-> FALSE] /\ stk = Fn(<<>>) /\ nxt = Fn(-1) /\ twice = FALSE
 
 \* ----- the shared-state effect of every hook point (used by the trace spec too) -----------
 SlAcq(t) == /\ owner \in {NONE, t}
@@ -78,6 +88,14 @@ WDestroy(t) == alive' = [alive EXCEPT ![t] = FALSE]
 UUnlink(u, w, f) == /\ owner = u /\ wq # <<>> /\ w = Head(wq)
                     /\ wq' = Tail(wq) /\ future' = [future EXCEPT ![w] = f]
                     /\ woken' = [woken EXCEPT ![w] = u]
+\* waking an entry that is not (or no longer) queued is the error "woken twice"; the queue is then left as it is
+InQ(w) == \E i \in 1..Len(wq) : wq[i] = w
+UUnlinkAny(u, w, f) == /\ owner = u
+                       /\ wq' = SelectSeq(wq, LAMBDA x : x # w) /\ future' = [future EXCEPT ![w] = f]
+                       /\ woken' = [woken EXCEPT ![w] = u] /\ twice' = (twice \/ ~InQ(w))
+DEnq(t, d, c) == /\ owner = t /\ wq' = Append(wq, d) /\ alive' = [alive EXCEPT ![d] = TRUE] /\ chain' = [chain EXCEPT ![d] = c]
+                 /\ woken' = [woken EXCEPT ![d] = NONE] /\ resumed' = [resumed EXCEPT ![d] = -1]
+DCall(d) == resumed' = [resumed EXCEPT ![d] = future[d]]
 Touch(w) == touchedDead' = (touchedDead \/ ~alive[w])
 EvSLock(u, w) == mown[w] = NONE /\ mown' = [mown EXCEPT ![w] = u] /\ Touch(w)
 EvSet(u, w) == mown[w] = u /\ flag' = [flag EXCEPT ![w] = TRUE] /\ Touch(w)
@@ -94,7 +112,7 @@ NextOp(t) == ip' = [ip EXCEPT ![t] = @ + 1] /\ pc' = [pc EXCEPT ![t] = "start"]
 U(S) == UNCHANGED S
 AllBut(S) == TRUE     \* (documentation only)
 
-Step(t) ==
+StepBase(t) ==
   /\ ~Done(t)
   /\ LET op == Op(t) k == op[1] IN
      CASE k = "lock" ->
@@ -115,19 +133,6 @@ Step(t) ==
               [] pc[t] = "wdone" -> EvWDone(t) /\ Goto(t, "resumed") /\ U(<<prog, ip, owner, rec, depth, saved, wq, alive, flag, parked, notified, future, woken, resumed, cur, sem, q, pushed, popped, touchedDead>>)
               [] pc[t] = "resumed" -> WResumed(t) /\ Goto(t, "destroy") /\ U(<<prog, ip, owner, rec, depth, saved, wq, alive, flag, mown, parked, notified, future, woken, cur, sem, q, pushed, popped, touchedDead>>)
               [] pc[t] = "destroy" -> WDestroy(t) /\ NextOp(t) /\ U(<<prog, owner, rec, depth, saved, wq, flag, mown, parked, notified, future, woken, resumed, cur, sem, q, pushed, popped, touchedDead>>))
-       [] k \in {"unwait_one", "unwait_all"} ->
-            (CASE pc[t] = "start" -> SlAcq(t) /\ Goto(t, "pick") /\ U(<<prog, ip, saved, wq, alive, flag, mown, parked, notified, future, woken, resumed, cur, sem, q, pushed, popped, touchedDead>>)
-              [] pc[t] = "pick" ->
-                   IF wq = <<>>
-                   THEN Goto(t, "rel") /\ U(<<prog, ip, owner, rec, depth, saved, wq, alive, flag, mown, parked, notified, future, woken, resumed, cur, sem, q, pushed, popped, touchedDead>>)
-                   ELSE UUnlink(t, Head(wq), op[2]) /\ cur' = [cur EXCEPT ![t] = Head(wq)] /\ Goto(t, "slock")
-                        /\ U(<<prog, ip, owner, rec, depth, saved, alive, flag, mown, parked, notified, resumed, sem, q, pushed, popped, touchedDead>>)
-              [] pc[t] = "slock" -> EvSLock(t, cur[t]) /\ Goto(t, "set") /\ U(<<prog, ip, owner, rec, depth, saved, wq, alive, flag, parked, notified, future, woken, resumed, cur, sem, q, pushed, popped>>)
-              [] pc[t] = "set" -> EvSet(t, cur[t]) /\ Goto(t, IF NotifyUnderLock THEN "notify" ELSE "sunlock") /\ U(<<prog, ip, owner, rec, depth, saved, wq, alive, mown, parked, notified, future, woken, resumed, cur, sem, q, pushed, popped>>)
-              [] pc[t] = "notify" -> EvNotify(t, cur[t]) /\ Goto(t, IF NotifyUnderLock THEN "sunlock" ELSE "after") /\ U(<<prog, ip, owner, rec, depth, saved, wq, alive, flag, mown, parked, future, woken, resumed, cur, sem, q, pushed, popped>>)
-              [] pc[t] = "sunlock" -> EvSUnlock(t, cur[t]) /\ Goto(t, IF NotifyUnderLock THEN "after" ELSE "notify") /\ U(<<prog, ip, owner, rec, depth, saved, wq, alive, flag, parked, notified, future, woken, resumed, cur, sem, q, pushed, popped>>)
-              [] pc[t] = "after" -> Goto(t, IF k = "unwait_all" THEN "pick" ELSE "rel") /\ U(<<prog, ip, owner, rec, depth, saved, wq, alive, flag, mown, parked, notified, future, woken, resumed, cur, sem, q, pushed, popped, touchedDead>>)
-              [] pc[t] = "rel" -> SlRel(t) /\ NextOp(t) /\ U(<<prog, saved, wq, alive, flag, mown, parked, notified, future, woken, resumed, cur, sem, q, pushed, popped, touchedDead>>))
        [] k = "push" ->
             (CASE pc[t] = "start" -> SqIn(t) /\ Goto(t, "op") /\ U(<<prog, ip, owner, rec, depth, saved, wq, alive, flag, mown, parked, notified, future, woken, resumed, cur, q, pushed, popped, touchedDead>>)
               [] pc[t] = "op" -> SqPush(t, op[2]) /\ Goto(t, "out") /\ U(<<prog, ip, owner, rec, depth, saved, wq, alive, flag, mown, parked, notified, future, woken, resumed, cur, sem, popped, touchedDead>>)
@@ -136,6 +141,58 @@ Step(t) ==
             (CASE pc[t] = "start" -> SqIn(t) /\ Goto(t, "op") /\ U(<<prog, ip, owner, rec, depth, saved, wq, alive, flag, mown, parked, notified, future, woken, resumed, cur, q, pushed, popped, touchedDead>>)
               [] pc[t] = "op" -> SqPop(t) /\ Goto(t, "out") /\ U(<<prog, ip, owner, rec, depth, saved, wq, alive, flag, mown, parked, notified, future, woken, resumed, cur, sem, pushed, touchedDead>>)
               [] pc[t] = "out" -> SqOut(t) /\ NextOp(t) /\ U(<<prog, owner, rec, depth, saved, wq, alive, flag, mown, parked, notified, future, woken, resumed, cur, q, pushed, popped, touchedDead>>))
+
+\* ----- waking (thread waiters and delegates), enqueuing a delegate -------------------------------------------------
+\* mode of the loop a thread is in: the top-level call is unwait_one or unwait_all, calls made from a delegate's callback are unwait_one
+CurMode(t) == IF stk[t] = <<>> THEN (IF Op(t)[1] = "unwait_all" THEN "all" ELSE "one") ELSE "one"
+FutOf(t) == IF stk[t] = <<>> THEN Op(t)[2] ELSE 700 + stk[t][Len(stk[t])]
+\* the entry the loop wakes next (NONE: nothing left)
+Target(t) == IF CursorBeforeWake /\ CurMode(t) = "all" /\ nxt[t] # -1 THEN nxt[t]
+             ELSE IF wq = <<>> THEN NONE ELSE Head(wq)
+SuccOf(w) == IF InQ(w) THEN LET i == CHOOSE i \in 1..Len(wq) : wq[i] = w IN (IF i < Len(wq) THEN wq[i + 1] ELSE NONE)
+             ELSE w          \* an unlinked node is self-linked: the cursor stays on it
+StepWake(t) ==
+  /\ ~Done(t)
+  /\ LET op == Op(t) k == op[1] IN
+     CASE pc[t] \in {"start", "nacq"} ->
+            /\ SlAcq(t) /\ Goto(t, "pick")
+            /\ nxt' = IF pc[t] = "start" THEN [nxt EXCEPT ![t] = -1] ELSE nxt
+            /\ U(<<prog, ip, saved, wq, alive, flag, mown, parked, notified, future, woken, resumed, cur, sem, q, pushed, popped, touchedDead, chain, stk, twice>>)
+       [] pc[t] = "pick" ->
+            LET tgt == Target(t) IN
+            IF tgt = NONE
+            THEN Goto(t, "rel") /\ U(<<prog, ip, owner, rec, depth, saved, wq, alive, flag, mown, parked, notified, future, woken, resumed, cur, sem, q, pushed, popped, touchedDead, chain, stk, nxt, twice>>)
+            ELSE /\ UUnlinkAny(t, tgt, FutOf(t)) /\ cur' = [cur EXCEPT ![t] = tgt]
+                 /\ nxt' = IF CursorBeforeWake /\ CurMode(t) = "all" THEN [nxt EXCEPT ![t] = SuccOf(tgt)] ELSE nxt
+                 /\ Goto(t, IF tgt \in Delegates THEN "dcall" ELSE "slock")
+                 /\ U(<<prog, ip, owner, rec, depth, saved, alive, flag, mown, parked, notified, resumed, sem, q, pushed, popped, touchedDead, chain, stk>>)
+       [] pc[t] = "dcall" ->          \* the delegate's function runs on the waking thread, under the system lock
+            LET d == cur[t] IN
+            /\ DCall(d)
+            /\ IF chain[d] THEN stk' = [stk EXCEPT ![t] = Append(@, d)] /\ Goto(t, "nacq") ELSE stk' = stk /\ Goto(t, "after")
+            /\ U(<<prog, ip, owner, rec, depth, saved, wq, alive, flag, mown, parked, notified, future, woken, cur, sem, q, pushed, popped, touchedDead, chain, nxt, twice>>)
+       [] pc[t] = "slock" -> EvSLock(t, cur[t]) /\ Goto(t, "set") /\ U(<<prog, ip, owner, rec, depth, saved, wq, alive, flag, parked, notified, future, woken, resumed, cur, sem, q, pushed, popped>>) /\ UNCHANGED DV
+       [] pc[t] = "set" -> EvSet(t, cur[t]) /\ Goto(t, IF NotifyUnderLock THEN "notify" ELSE "sunlock") /\ U(<<prog, ip, owner, rec, depth, saved, wq, alive, mown, parked, notified, future, woken, resumed, cur, sem, q, pushed, popped>>) /\ UNCHANGED DV
+       [] pc[t] = "notify" -> EvNotify(t, cur[t]) /\ Goto(t, IF NotifyUnderLock THEN "sunlock" ELSE "after") /\ U(<<prog, ip, owner, rec, depth, saved, wq, alive, flag, mown, parked, future, woken, resumed, cur, sem, q, pushed, popped>>) /\ UNCHANGED DV
+       [] pc[t] = "sunlock" -> EvSUnlock(t, cur[t]) /\ Goto(t, IF NotifyUnderLock THEN "after" ELSE "notify") /\ U(<<prog, ip, owner, rec, depth, saved, wq, alive, flag, parked, notified, future, woken, resumed, cur, sem, q, pushed, popped>>) /\ UNCHANGED DV
+       [] pc[t] = "after" -> Goto(t, IF CurMode(t) = "all" THEN "pick" ELSE "rel") /\ U(<<prog, ip, owner, rec, depth, saved, wq, alive, flag, mown, parked, notified, future, woken, resumed, cur, sem, q, pushed, popped, touchedDead>>) /\ UNCHANGED DV
+       [] pc[t] = "rel" ->
+            /\ SlRel(t)
+            /\ IF stk[t] # <<>>          \* return from a callback's unwait_one into the loop that called the delegate
+               THEN stk' = [stk EXCEPT ![t] = SubSeq(@, 1, Len(@) - 1)] /\ Goto(t, "after") /\ ip' = ip
+               ELSE stk' = stk /\ NextOp(t)
+            /\ U(<<prog, saved, wq, alive, flag, mown, parked, notified, future, woken, resumed, cur, sem, q, pushed, popped, touchedDead, chain, nxt, twice>>)
+StepDenq(t) ==
+  /\ ~Done(t)
+  /\ LET op == Op(t) IN
+     CASE pc[t] = "start" -> SlAcq(t) /\ Goto(t, "enq") /\ U(<<prog, ip, saved, wq, alive, flag, mown, parked, notified, future, woken, resumed, cur, sem, q, pushed, popped, touchedDead>>) /\ UNCHANGED DV
+       [] pc[t] = "enq" -> DEnq(t, op[2], op[3]) /\ Goto(t, "rel") /\ U(<<prog, ip, owner, rec, depth, saved, flag, mown, parked, notified, future, cur, sem, q, pushed, popped, touchedDead, stk, nxt, twice>>)
+       [] pc[t] = "rel" -> SlRel(t) /\ NextOp(t) /\ U(<<prog, saved, wq, alive, flag, mown, parked, notified, future, woken, resumed, cur, sem, q, pushed, popped, touchedDead>>) /\ UNCHANGED DV
+Step(t) ==
+  /\ ~Done(t)
+  /\ IF Op(t)[1] \in {"unwait_one", "unwait_all"} THEN StepWake(t)
+     ELSE IF Op(t)[1] = "denq" THEN StepDenq(t)
+     ELSE StepBase(t) /\ UNCHANGED DV
 
 Next == \E t \in Threads : Step(t)
 Finished == \A t \in Threads : Done(t)
@@ -151,7 +208,7 @@ LockInv == /\ (owner = NONE <=> rec = 0)
            /\ owner # NONE => depth[owner] = rec
 \* nobody is woken spuriously: a waiter only returns after it was unlinked by a waker,
 \* with the future that waker supplied
-NoSpuriousReturn == \A t \in Threads : resumed[t] # -1 => woken[t] # NONE
+NoSpuriousReturn == \A t \in Threads \cup Delegates : resumed[t] # -1 => woken[t] # NONE
 \* a parked or queued waiter that has been unlinked is eventually resumed (no lost wake-up);
 \* in the closed programs of the configurations this is: no deadlock, everybody finishes
 AllFinish == <>Finished
@@ -159,6 +216,8 @@ AllFinish == <>Finished
 \* nothing duplicated or invented
 QueueInv == /\ Len(popped) + Len(q) = Len(pushed)
             /\ popped \o q = [i \in 1..Len(pushed) |-> pushed[i][2]]
+\* no queue entry (thread waiter or delegate) is woken when it is not queued: woken exactly once
+NoDoubleWake == ~twice
 \* a waiter is in the queue at most once and only while alive
 QueueWellFormed == /\ \A i, j \in 1..Len(wq) : i # j => wq[i] # wq[j]
                    /\ \A i \in 1..Len(wq) : alive[wq[i]]
